@@ -239,6 +239,21 @@ def load(modname):
     return importlib.import_module(modname)
 
 
+def load_file(modname, path):
+    """load an arbitrary source file (the vendored reference library) through the same transform"""
+    if modname in sys.modules:
+        return sys.modules[modname]
+    with open(path, 'r') as f:
+        source = f.read()
+    SOURCE_LINES[modname] = (path, source)
+    tree = transform_source(source, modname, path)
+    mod = types.ModuleType(modname)
+    mod.__file__ = path
+    sys.modules[modname] = mod
+    exec(compile(tree, path, 'exec'), mod.__dict__)
+    return mod
+
+
 def resolve(target):
     """'pkg.mod:Qual.name' -> (module, owner, attr name, object)"""
     modname, qual = target.split(':')
